@@ -38,7 +38,16 @@ impl Scn {
         self.run(&bita_bin(), args, stdin, env)
     }
     pub fn run(&self, prog: &str, args: &[&str], stdin: Option<&[u8]>, env: &[(&str, &str)]) -> (i32, String) {
+        // clones of small test archives take milliseconds; compress at high levels may take minutes
+        let limit = if args.iter().any(|a| *a == "clone" || *a == "info") { 90 } else { 600 };
+        self.run_limit(prog, args, stdin, env, limit)
+    }
+    pub fn run_limit(&self, prog: &str, args: &[&str], stdin: Option<&[u8]>, env: &[(&str, &str)], limit_s: u64) -> (i32, String) {
         use std::io::Read;
+        // once a few commands of this process have had to be killed, later ones get a short limit: a systematic hang
+        // (lost wake-up, endless retry) is reported by every one of them and must not take hours to report
+        static KILLED: std::sync::atomic::AtomicUsize = std::sync::atomic::AtomicUsize::new(0);
+        let limit_s = if KILLED.load(std::sync::atomic::Ordering::Relaxed) >= 3 { limit_s.min(15) } else { limit_s };
         let mut c = Command::new(prog);
         c.args(args).current_dir(&self.dir).stdout(Stdio::piped()).stderr(Stdio::piped());
         for (k, v) in env { c.env(k, v); }
@@ -60,7 +69,7 @@ impl Scn {
             match child.try_wait() {
                 Ok(Some(st)) => break Some(st),
                 Ok(None) => {
-                    if start.elapsed() > std::time::Duration::from_secs(600) { let _ = child.kill(); let _ = child.wait(); break None; }
+                    if start.elapsed() > std::time::Duration::from_secs(limit_s) { KILLED.fetch_add(1, std::sync::atomic::Ordering::Relaxed); let _ = child.kill(); let _ = child.wait(); break None; }
                     std::thread::sleep(std::time::Duration::from_millis(5));
                 }
                 Err(_) => break None,
@@ -69,7 +78,7 @@ impl Scn {
         let out = t1.join().unwrap_or_default();
         let err = t2.join().unwrap_or_default();
         let code = match status { Some(st) => st.code().unwrap_or(-(st.to_string().len() as i32)), None => -99 };
-        (code, String::from_utf8_lossy(&out).to_string() + &String::from_utf8_lossy(&err) + if status.is_none() { "\nTIMEOUT: killed by the harness after 600 s" } else { "" })
+        (code, String::from_utf8_lossy(&out).to_string() + &String::from_utf8_lossy(&err) + if status.is_none() { "\nTIMEOUT: killed by the harness (no result within its time limit)" } else { "" })
     }
 }
 
